@@ -60,6 +60,22 @@ def h_ctparse_gen(rp):
         seen["b"] = dict(inspect.signature(orig).bind(*a, **k).arguments)
         return iter(())
     C._ctparse = fake
+    if rp["clause"].startswith("documented-defaults"):
+        try:
+            list(C.ctparse_gen("some text"))
+        except Exception as e:
+            out["real_exception"] = repr(e)
+        finally:
+            C._ctparse = orig
+        b = seen.get("b", {})
+        doc = {"timeout": 1.0, "relative_match_len": 1.0, "max_stack_depth": 10}
+        wrong = {k: repr(b.get(k)) for k, v in doc.items() if b.get(k) != v or type(b.get(k)) is not type(v)}
+        if b.get("scorer") is not C._DEFAULT_SCORER:
+            wrong["scorer"] = repr(b.get("scorer"))
+        out["confirmed"] = bool(wrong)
+        if wrong:
+            out["failing_input"] = {"call": "ctparse_gen(txt)", "wrong_at_the_search": wrong, "documented": doc}
+        return out
     sc = object()
     ts = datetime(2020, 2, 29, 23, 59)
     try:
